@@ -553,6 +553,14 @@ fn replay_outcomes(idx: usize, case: &Value, n: usize) -> Value {
                     observed.insert("result".to_string());
                     detail.insert(format!("{}", got));
                     let res = &case["res"];
+                    // the whole world of an error-free run is the spec's least fixpoint (every origin of every fact)
+                    if res.get("world").is_some() && world_of(&a) != expected_world(res) {
+                        let (w, ew) = (world_of(&a), expected_world(res));
+                        let extra: Vec<_> = w.difference(&ew).take(2).collect();
+                        let missing: Vec<_> = ew.difference(&w).take(2).collect();
+                        problems.push(format!("OUTSIDE-SPEC: world differs from the spec's: extra {:?} missing {:?}", extra, missing));
+                        detail.insert(format!("world missing {:?} extra {:?}", missing, extra));
+                    }
                     if got["policy"] != res["policy"] || got["ok"] != res["ok"] || listed_failed(&got["failed"]) != canon_failed(&res["failed"]) {
                         problems.push(format!("error-free result {} differs from the spec's {}", got, json!({"policy": res["policy"], "ok": res["ok"], "failed": res["failed"]})));
                     }
